@@ -73,10 +73,9 @@ def nearlyEq (a b : α) : Bool := decide (abs (a - b) < EPS)
 def lintOne (e : Entry α) : Option (Warning α) :=
   match e.c with
   | .linesAtAngle _ _ (.other θ) =>
-    let d := θ.toDegrees
-    if nearlyEq d 0.0 || nearlyEq d 360.0 || nearlyEq d 180.0 then
+    if nearlyEq θ.toDegrees 0.0 || nearlyEq θ.toDegrees 360.0 || nearlyEq θ.toDegrees 180.0 then
       some ⟨some e.id, .shouldBeParallel θ⟩
-    else if nearlyEq d 90.0 || nearlyEq d (-90.0) then
+    else if nearlyEq θ.toDegrees 90.0 || nearlyEq θ.toDegrees (-90.0) then
       some ⟨some e.id, .shouldBePerpendicular θ⟩
     else none
   | _ => none
@@ -183,6 +182,8 @@ structure NewtonOk (α : Type) where
   warnings : List (Warning α)
   /-- Jacobian contributions of the last evaluation (what the freedom analysis reads). -/
   lastJac : List (Triplet α)
+  /-- Ghost: `true` when the loop returned at the residual test, `false` at the step-size test. -/
+  byResidual : Bool
 
 def lookup (x : List α) : Nat → Option α := fun i => x[i]?
 
@@ -217,7 +218,7 @@ def newtonStep (es : List (Entry α)) (cfg : Config α) (solve : Nat → List (T
       match maxAbs? r with
       | none => .fail .emptySystemNotAllowed (ws ++ w1 ++ w2)
       | some largest =>
-        if largest ≤ cfg.convergenceTolerance then .done ⟨x, k, ws ++ w1 ++ w2, jac⟩
+        if largest ≤ cfg.convergenceTolerance then .done ⟨x, k, ws ++ w1 ++ w2, jac, true⟩
         else
           match solve k jac r with
           | .error e => .fail e (ws ++ w1 ++ w2)
@@ -225,7 +226,7 @@ def newtonStep (es : List (Entry α)) (cfg : Config α) (solve : Nat → List (T
             if d.length ≠ x.length then .fail (.panic "d has the wrong length") (ws ++ w1 ++ w2)
             else if !allFinite (applyStep x d) then .fail .didNotConverge (ws ++ w1 ++ w2)
             else if stepInfNorm d ≤ stepThreshold cfg x then
-              .done ⟨applyStep x d, k, ws ++ w1 ++ w2, jac⟩
+              .done ⟨applyStep x d, k, ws ++ w1 ++ w2, jac, false⟩
             else .next (applyStep x d) (ws ++ w1 ++ w2)
 
 /-- `solve_gauss_newton`: `fuel` rounds remain, `k` is `this_iteration`. -/
